@@ -77,6 +77,14 @@ func (e *Exec) unsupported(format string, args ...interface{}) {
 	e.abort("unsupported", format, args...)
 }
 
+// solverAlive ends the path when the solver process had to be killed: the
+// path's scope is gone with it, nothing further can be decided.
+func (e *Exec) solverAlive() {
+	if e.S.Dead {
+		e.abort("unknown", "solver exceeded its hard timeout and was killed at %s", e.where())
+	}
+}
+
 func (e *Exec) replaying() bool { return e.pos < len(e.prefix) }
 
 // ---- path condition ----
@@ -139,6 +147,7 @@ func (e *Exec) Branch(c sym.Sc) bool {
 	if rt != sym.Unsat {
 		rf = e.S.Check(sym.Not(c).Term())
 	}
+	e.solverAlive()
 	if rt == sym.Unknown || rf == sym.Unknown {
 		e.res.UnknownBr++
 	}
@@ -206,6 +215,7 @@ func (e *Exec) Assume(c sym.Sc) {
 		return
 	}
 	r := e.S.Check(c.Term())
+	e.solverAlive()
 	if r == sym.Unsat {
 		e.abort("pruned", "assumption infeasible")
 	}
@@ -403,7 +413,16 @@ func (e *Exec) Assert(label string, c sym.Sc, kf string, carve sym.Sc) {
 	e.assumeAfter(c)
 }
 
-func (e *Exec) checkNeg(c sym.Sc, label string) (sym.Result, *Vector) {
+func (e *Exec) checkNeg(c sym.Sc, label string) (r sym.Result, v *Vector) {
+	defer func() {
+		if e.S.Dead {
+			r = sym.Unknown
+		}
+	}()
+	return e.checkNeg1(c, label)
+}
+
+func (e *Exec) checkNeg1(c sym.Sc, label string) (sym.Result, *Vector) {
 	if c.K {
 		if c.V != 0 {
 			return sym.Unsat, nil
